@@ -1,6 +1,7 @@
 (* c08_driver.ml — runs the extracted scaling model (ScalImpl.v / ScalSpec.v) on the C08 case protocol (see harness/c08.c).
    Extra input line "T k bits": use this bit pattern as pow(10.0,k) (the value libm returned on this machine) instead of
-   the correctly rounded pow10_rn k; produces no output.  R lines print a fifth token: quantQ of the decoded double. *)
+   the correctly rounded pow10_rn k; produces no output.  Extra input line "V a b": select the mirrored variant of the code
+   (a = fx_neg, b = fx_f32, 0/1; see ScalImpl.v); produces no output.  R lines print a fifth token: quantQ of the decoded double. *)
 let pos_of_int (i : int) : positive = match n_of_int i with Npos p -> p | N0 -> failwith "pos_of_int"
 let int_of_pos (p : positive) : int = int_of_n (Npos p)
 let big_of_dec (s : string) : z =            (* decimal, any size *)
@@ -49,6 +50,8 @@ let f_of_hex (h : string) : binary_float =
 let hex_of_f (x : binary_float) : string =
   let (s, e, f) = fields_of_float 8 23 x in
   Printf.sprintf "%08x" ((if s then 0x80000000 else 0) lor (e lsl 23) lor f)
+let fx_neg = ref false
+let fx_f32 = ref false
 let powtab : (int, binary_float) Hashtbl.t = Hashtbl.create 64
 let pow10 (k : z) : binary_float =
   match Hashtbl.find_opt powtab (int_of_z k) with Some v -> v | None -> let v = pow10_rn k in Hashtbl.replace powtab (int_of_z k) v; v
@@ -60,6 +63,7 @@ let () = iter_lines (fun line ->
   match split_ws line with
   | [] -> ()
   | "T" :: k :: bits :: _ -> Hashtbl.replace powtab (int_of_string k) (d_of_hex bits)
+  | "V" :: a :: b :: _ -> fx_neg := (a = "1"); fx_f32 := (b = "1")
   | "P" :: k :: _ -> print_endline (hex_of_d (pow10 (z_of_int (int_of_string k))))
   | "M" :: n :: _ -> print_endline (hex_of_z (missing_ivalue (z_of_int (int_of_string n))))
   | "N" :: v :: _ -> print_endline (dec_of_z (value_nbits (big_of_dec v)))
@@ -68,23 +72,23 @@ let () = iter_lines (fun line ->
   | "R" :: t ->
     let (en, desc, rest) = enc_of t in
     let i = big_of_dec (List.hd rest) in
-    let d = cvt_i64_to_dval pow10 en i in
-    let j = cvt_dval_to_i64 pow10 desc en d in
-    let f = cvt_i32_to_fval pow10 en i in
-    let k = cvt_fval_to_i32 pow10 desc en f in
+    let d = cvt_i64_to_dval pow10 !fx_neg en i in
+    let j = cvt_dval_to_i64 pow10 !fx_neg desc en d in
+    let f = cvt_i32_to_fval pow10 !fx_f32 en i in
+    let k = cvt_fval_to_i32 pow10 !fx_f32 desc en f in
     let qd = if is_missing_double d then "m" else dec_of_z (quantQ en.e_scale en.e_ref en.e_nbits (b2Q (z_of_int 53) (z_of_int 1024) d)) in
     Printf.printf "%s %s %s %s %s\n" (hex_of_d d) (hex_of_z j) (hex_of_f f) (hex_of_z k) qd
   | "D" :: t ->
     let (en, desc, rest) = enc_of t in
-    print_endline (hex_of_z (cvt_dval_to_i64 pow10 desc en (d_of_hex (List.hd rest))))
+    print_endline (hex_of_z (cvt_dval_to_i64 pow10 !fx_neg desc en (d_of_hex (List.hd rest))))
   | "F" :: t ->
     let (en, desc, rest) = enc_of t in
-    print_endline (hex_of_z (cvt_fval_to_i32 pow10 desc en (f_of_hex (List.hd rest))))
+    print_endline (hex_of_z (cvt_fval_to_i32 pow10 !fx_f32 desc en (f_of_hex (List.hd rest))))
   | "X" :: t ->
     let (en, desc, rest) = enc_of t in
     let v = d_of_hex (List.hd rest) in
-    let (mn, mx) = get_range pow10 desc en in
-    let st = set_dvalue_stored pow10 desc en v in
+    let (mn, mx) = get_range pow10 !fx_neg desc en in
+    let st = set_dvalue_stored pow10 !fx_neg desc en v in
     let rt = if is_missing_double v then 1 else if is_missing_double st then -1 else 1 in
     Printf.printf "%s %s %d %s\n" (hex_of_d mn) (hex_of_d mx) rt (hex_of_d st)
   | _ -> print_endline "?")
